@@ -375,4 +375,9 @@ var vfProtoByName = map[string]protocol.ID{
 	"v11": GossipSubID_v11,
 	"v12": GossipSubID_v12,
 	"v13": GossipSubID_v13,
+	// a custom protocol ID with every feature, configured through WithGossipSubProtocols (see newVfGW)
+	"acme": vfAcmeProto,
 }
+
+const vfAcmeProto = protocol.ID("/acme/meshsub/1.3.0")
+
